@@ -18,7 +18,8 @@ RULE = "SD.f-fixed-extent-array-access"
 LAST_PROG = {}
 SELFTEST = os.path.join(VERIF, "selftest", "fx_positive.c")
 EXPECT = {"bad_carry": "violation", "good_carry": "inside", "bad_fill": "violation", "good_fill": "inside",
-          "sentinel": "undecided", "bad_wrap_len": "violation", "good_wrap_len": "inside"}
+          "sentinel": "undecided", "bad_wrap_len": "violation", "good_wrap_len": "inside",
+          "bad_wrap_arg": "violation", "good_wrap_arg": "inside"}
 
 
 def _verdicts(A):
@@ -228,7 +229,10 @@ def selftest(config):
     types = _types(prog)
     seen = {}
     saved = dict(DOC_EXT)
-    DOC_EXT.update({"bad_wrap_len": {"in": {"in_len": 1}}, "good_wrap_len": {"in": {"in_len": 1}}})
+    DOC_EXT.update({"bad_wrap_len": {"in": {"in_len": 1}}, "good_wrap_len": {"in": {"in_len": 1}},
+                    "bad_wrap_arg": {"in": {"in_len": 1}}, "good_wrap_arg": {"in": {"in_len": 1}},
+                    "fx_sink": {"buf": {"count": 1}}})
+    saved_doc_of, fx.DOC_OF = fx.DOC_OF, (lambda name: DOC_EXT.get(name))
     for f in prog.all_funcs():
         if f.body is None or f.name not in EXPECT:
             continue
@@ -237,6 +241,7 @@ def selftest(config):
         seen[f.name] = "violation" if "violation" in vs else "undecided" if "undecided" in vs else "inside" if vs else "none"
     DOC_EXT.clear()
     DOC_EXT.update(saved)
+    fx.DOC_OF = saved_doc_of
     for name, want in EXPECT.items():
         if seen.get(name) != want:
             raise AnalysisBroken("SD.f self-test: %s is %s, expected %s" % (name, seen.get(name), want))
